@@ -156,7 +156,8 @@ def shellLeaves (d : CommandDef) : List HashTerm :=
     .int d.args.length :: (d.args.map .str ++
     (.int d.env.length :: (d.env.flatMap pairLeaves ++
     (.int d.depsPaths.length :: (d.depsPaths.map .str ++
-    [.int d.depsStyle, .int (b2n d.inheritEnv), .int (b2n d.canSafelyInterrupt)])))))
+    [.int d.depsStyle, .int (b2n d.inheritEnv), .int (b2n d.canSafelyInterrupt),
+     .str d.workingDirectory, .int (b2n d.controlEnabled)])))))
   else [.str d.signatureData]
 
 theorem shell_closed (d : CommandDef) (n : Nat) :
